@@ -454,8 +454,9 @@ def run_check(prop, tier):
         "scenario": scn.NAME,
         "technique": "deterministic simulation with fault injection: seeded plan generation, single-threaded execution against simulated file system / clock / stdio, oracle against reference model",
     }
-    os.makedirs(os.path.join(VERIF, "evidence"), exist_ok=True)
-    with open(os.path.join(VERIF, "evidence", "%s.json" % prop), "w") as f:
+    evdir = os.environ.get("VERIF_EVIDENCE_DIR") or os.path.join(VERIF, "evidence")
+    os.makedirs(evdir, exist_ok=True)
+    with open(os.path.join(evdir, "%s.json" % prop), "w") as f:
         json.dump(ev, f, indent=1, sort_keys=True, default=str)
 
     print("%s %s: runs=%d evaluations=%d distinct_states=%d wall=%.1fs faults=%s" % (prop, tier, agg["runs"], agg["evals"], len(states), wall, json.dumps(faults)))
